@@ -178,7 +178,7 @@ def run(ctx):
     cases = list(gen_cases(ctx))
     groups = {}
     for c in cases:
-        groups.setdefault((tuple(c["dm"]), c["d"], c["axis"], c["bg"]), []).append(c)
+        groups.setdefault(gkey(c), []).append(c)
     with ThreadPoolExecutor(max_workers=PARALLEL) as ex:
         recs = [r for rs in ex.map(observe_batch, groups.values()) for r in rs]
     rng = random.Random(ctx.seed + 1)
